@@ -47,6 +47,7 @@ ASSUMPTIONS = [
     "spin-echo lengths, wavelengths, acceptances and Gaussian widths are drawn from the finite alphabet in coverage.bounds",
 ]
 RANGES = [[10.0, 1e3], [1e2, 1e4], [1e3, 1e5]]
+WIDE_RANGE = [10.0, 1e5]
 LAMBDAS = [2.0, 5.0, 12.0]
 ACCEPT = [math.pi / 2, 0.1, 0.01]
 BOUNDS = {
@@ -141,7 +142,9 @@ def cases(ctx):
     svals = _svals(ctx)
     for n in BOUNDS[ctx.tier]["n"]:
         for kind in (["linear", "log"] if n > 2 else ["linear"]):
-            for rng in RANGES:
+            # log grids also span four decades (10 A .. 10 um, the full range of the quantifier): long spin-echo
+            # lengths together with narrow features, i.e. q*xi far beyond the first Bessel oscillations
+            for rng in (RANGES + [WIDE_RANGE] if kind == "log" and n >= 5 else RANGES):
                 for lam in LAMBDAS:
                     for acc in ACCEPT:
                         out.append({"kind": "transform", "n": n, "grid": kind, "range": rng, "lam": lam, "acc": acc,
